@@ -8,7 +8,7 @@ from props.c10 import parse_nodes
 ID = "C01"
 THEOREMS = ["Bufr.C01.C01_static_roundtrip", "Bufr.C01.C01_structure", "Bufr.C01.C01_layout_rederived", "Bufr.C01.C01_element", "Bufr.C01.C01_raw_bits",
             "Bufr.C01.C01_dynamic_subset", "Bufr.C01.C01_dynamic_roundtrip", "Bufr.C01.C01_dynamic_positions",
-            "Bufr.C01.C01_bitmap_head_inert_partial", "Bufr.C01.C01_subset_loop_head_inert", "Bufr.C01.C01_bitmap_head_inert_build"]
+            "Bufr.C01.C01_bitmap_head_inert", "Bufr.C01.C01_subset_loop_head_inert", "Bufr.C01.C01_bitmap_head_inert_build"]
 RULE = ("datasets over generated templates (every element type, Table D, fixed/delayed replication to depth 3 with "
         "zero counts, in-scope Table C operators), 1..4 subsets, values on the quantisation grid incl. 0, max-1 and "
         "missing, editions 2-4: encode uncompressed, decode, compare every descriptor and value; distinct = distinct "
